@@ -64,6 +64,8 @@ def cases(group):
                         yield dict(X=X, Y=Yf, mixing=mixing, space=space, reg=spec)
                         if group["label"].startswith("I") and spec in ("default", "linreg"):
                             yield dict(X=X, Y=Yf, mixing=mixing, space=space, reg=spec, int_dtype=True)
+                        if group["label"][0] in "GI" and spec in ("default", "linreg") and mixing in (0.0, 0.5) and isinstance(Yf[0], list):
+                            yield dict(X=X, Y=Yf, mixing=mixing, space=space, reg=spec, y_int=True)  # integer-typed targets
                         if spec == "default" and isinstance(Yf[0], list):
                             yield dict(X=X, Y=Yf, mixing=mixing, space=space, reg=spec, solver="arpack")
                         if group["label"].startswith("G") and mixing == 0.5 and isinstance(Yf[0], list):
@@ -76,6 +78,8 @@ def check(case):
     Y = np.array(case["Y"], float)
     mixing, space, spec = case["mixing"], case["space"], case["reg"]
     n, m = X.shape
+    if case.get("y_int"):
+        Y = np.round(Y * 2.0)
     ref = pcov.Ref(X, Y, mixing, spec)
     if ref.condX > 2e3:
         return r.skip("X ill conditioned on its non-zero spectrum")
@@ -96,7 +100,7 @@ def check(case):
         solver = case.get("solver", "full")
         if solver == "arpack" and k >= min(n, m):
             break
-        est, exc = pcov.fit_pcovr(X, Y, mixing, k, spec, space, solver, prefit=bool(case.get("prefit")), int_dtype=bool(case.get("int_dtype")))
+        est, exc = pcov.fit_pcovr(X, Y, mixing, k, spec, space, solver, prefit=bool(case.get("prefit")), int_dtype=bool(case.get("int_dtype")), y_int=bool(case.get("y_int")))
         r.transitions += 1
         if exc is not None:
             r.fail("crash:%s" % type(exc).__name__, "k=%d: %r" % (k, exc))
